@@ -218,15 +218,15 @@ with nots_f (f : forest) (j : nat) (p : path) {struct f} : list (list notifier) 
 (* find a node by id (what a raw pointer held by an iterator denotes); None = the node was freed *)
 Fixpoint find_t (n : tnode) (id : nat) {struct n} : option path :=
   match n with
-  | TN i seg f => if n_id i =? id then Some [] else find_f f id 0
+  | TN i seg f => if n_id i =? id then Some [] else find_f f id
   end
-with find_f (f : forest) (id : nat) (pos : nat) {struct f} : option path :=
+with find_f (f : forest) (id : nat) {struct f} : option path :=
   match f with
   | FNil => None
   | FCons c f' =>
     match (match c with Some t => find_t t id | None => None end) with
-    | Some p => Some (pos :: p)
-    | None => find_f f' id (S pos)
+    | Some p => Some (0 :: p)
+    | None => match find_f f' id with Some p => Some (match p with [] => [] | j :: p' => S j :: p' end) | None => None end
     end
   end.
 
